@@ -1,17 +1,16 @@
-(* Correspondence check for C23: histories of Add/Del/Match on the real
-   filer.FilerConf, with the conf the implementation returned at every Match. *)
-From Coq Require Import List NArith Bool String.
+(* Correspondence check for C23: histories of Add/Del/Match/Load/Reload/LoadBad/Dump on the
+   real filer.FilerConf, with what the implementation returned at every step. *)
+From Coq Require Import List NArith Bool String Ascii.
 From SW Require Export base.Verdict model.FilerConf.
 Import ListNotations.
 
-Record case := { ops : list op; impl : list (option conf) }.
+Record case := { ops : list op; impl : list obs }.
 
-Definition oconf_eqb (a b : option conf) : bool :=
-  match a, b with
-  | Some x, Some y => conf_eqb x y
-  | None, None => true
-  | _, _ => false
-  end.
+(* short names for the harness printer *)
+Definition C := Build_conf.
+(* strings with bytes outside printable ASCII (UTF-8 names) are written as byte lists *)
+Fixpoint sb (l : list N) : string :=
+  match l with [] => EmptyString | n :: l' => String (ascii_of_N n) (sb l') end.
 
 Fixpoint all2 {A} (f : A -> A -> bool) (l1 l2 : list A) : bool :=
   match l1, l2 with
@@ -20,13 +19,91 @@ Fixpoint all2 {A} (f : A -> A -> bool) (l1 l2 : list A) : bool :=
   | _, _ => false
   end.
 
-Definition is_match (o : op) : bool := match o with Match _ => true | _ => false end.
+Definition obs_eqb (a b : obs) : bool :=
+  match a, b with
+  | ODone, ODone | OPanic, OPanic | OErr, OErr => true
+  | OConf l1 c1, OConf l2 c2 => String.eqb l1 l2 && conf_eqb c1 c2
+  | ORules l1, ORules l2 => all2 rule_eqb l1 l2
+  | _, _ => false
+  end.
+
+(* ---- the property oracle, independent of the model's put/del/match_rule:
+   the configured rules at a point of the history are read off the history itself
+   (the last Add/Load/Del that mentions a prefix decides), and every answer of the
+   implementation is judged by the declarative longest-setter check [match_ok]. ---- *)
+Definition event := (string * option conf)%type.
+Definition nonempty (p : string) : bool := negb (String.eqb p "").
+
+Fixpoint load_events (l : list rule) : list event :=      (* oldest first; stops at an empty prefix *)
+  match l with
+  | [] => []
+  | r :: l' => if nonempty (fst r) then (fst r, Some (snd r)) :: load_events l' else []
+  end.
+
+Definition op_events (o : op) : list event :=
+  match o with
+  | Add p c => if nonempty p then [(p, Some c)] else []
+  | Del p => [(p, None)]
+  | Load l => load_events l
+  | _ => []
+  end.
+
+Fixpoint spec_lookup (evs : list event) (p : string) : option conf :=   (* evs: newest first *)
+  match evs with
+  | [] => None
+  | (q, v) :: evs' => if String.eqb q p then v else spec_lookup evs' p
+  end.
+
+Fixpoint dedup (l : list string) : list string :=
+  match l with
+  | [] => []
+  | x :: l' => if existsb (String.eqb x) l' then dedup l' else x :: dedup l'
+  end.
+
+Definition spec_rules (evs : list event) : rules :=
+  flat_map (fun k => match spec_lookup evs k with Some c => [(k, c)] | None => [] end)
+           (dedup (map fst evs)).
+
+Fixpoint strictly_sorted (l : list rule) : bool :=
+  match l with
+  | a :: l' => match l' with b :: _ => String.ltb (fst a) (fst b) | [] => true end && strictly_sorted l'
+  | [] => true
+  end.
+
+Definition same_set (l1 l2 : rules) : bool :=
+  forallb (fun r => existsb (rule_eqb r) l2) l1 && forallb (fun r => existsb (rule_eqb r) l1) l2.
+
+Definition step_ok (evs : list event) (o : op) (ob : obs) : bool :=
+  match o, ob with
+  | Add _ _, ODone | Del _, ODone | Load _, ODone | Reload, ODone | LoadBad, OErr => true
+  | Match path, OConf lp c => String.eqb lp "" && match_ok (spec_rules evs) path c
+  | Dump, ORules l => strictly_sorted l && same_set l (spec_rules evs)
+  | _, _ => false
+  end.
+
+(* (every step satisfies the property, every step satisfies it or is itself inside trigger 0) *)
+Fixpoint judge (evs : list event) (os : list op) (is : list obs) : bool * bool :=
+  match os, is with
+  | [], [] => (true, true)
+  | o :: os', i :: is' =>
+      let ok := step_ok evs o i in
+      let '(a, b) := judge (rev (op_events o) ++ evs) os' is' in
+      (ok && a, (ok || op_empty_prefix o) && b)
+  | _, _ => (false, false)
+  end.
+
+Definition sets_something (ob : obs) : bool :=
+  match ob with
+  | OConf _ c => negb (conf_eqb c empty_conf)
+  | _ => false
+  end.
 
 Definition check (c : case) : outcome :=
-  {| o_corr := all2 oconf_eqb (run [] (ops c)) (impl c);
-     (* property oracle: the reference longest-prefix resolver on the implementation's answers *)
-     o_prop := all2 oconf_eqb (ref_run [] (ops c)) (impl c);
-     o_trig := None;
-     o_nontrivial := existsb is_match (ops c) |}.
+  let j := judge [] (ops c) (impl c) in
+  {| o_corr := all2 obs_eqb (run [] (ops c)) (impl c);
+     o_prop := fst j;
+     (* finding 0 only excuses the steps that carry an empty prefix themselves *)
+     o_trig := if negb (fst j) && snd j then Some 0%N else None;
+     o_nontrivial := existsb sets_something (impl c) |}.
 
 Definition summarize_cases (l : list case) : summary := summarize check l.
